@@ -711,6 +711,16 @@ def body_formula(case, ctx):
         ang = I.angle_between(Vh, np.roll(Vh, 1, axis=0), np.roll(Vh, -1, axis=0))
         ctx.small("regular_surface_polygon: interior angles 2 pi / 4g (angle sum 2 pi)",
                   (ang - math.pi / (2 * g)) / (1e-8 * Cg ** 4), 1.0, ang=ang)
+        # the same polygon asked for in H^d, d = 3..5: the same vertices in the plane of the
+        # first two coordinates
+        dd = 3 + g % 3
+        Vd = np.asarray(Polygon.regular_surface_polygon(g, dimension=dd).get_vertices()
+                        .proj_data, dtype=float)
+        ctx.check(Vd.shape == (4 * g, dd + 1), "regular_surface_polygon(g, dimension=d) has "
+                  "4g vertices in H^d", got=Vd.shape, want=(4 * g, dd + 1))
+        ctx.close("regular_surface_polygon(g, dimension=d): the planar polygon, padded",
+                  Vd / Vd[:, :1], np.concatenate([V / V[:, :1], np.zeros((4 * g, dd - 2))],
+                                                 axis=1), rtol=0, atol=1e-12 * Cg)
 
 
 # ------------------------------------------ 9. timelike_to / spacelike_to (docstrings)
